@@ -488,6 +488,8 @@ def _register_shared_nz():
          cases=[dict(ref=r, unk=u) for r in (False, True) for u in (False, True)], trusted=["np.tile+reshape identity"])(_C04.u_from_corrdata)
     unit(P, "RedshiftData.from_corrfuncs", fuc=["yaw.redshifts:RedshiftData.from_corrfuncs"],
          cases=[dict(ref=r, unk=u) for r in (False, True) for u in (False, True)])(_C04.u_from_corrfuncs)
+    # the correlation function samples are the estimator applied to the leave-one-out pair counts, row by row (C04 unit)
+    unit(P, "CorrFunc.sample", fuc=["yaw.correlation.corrfunc:CorrFunc.sample"], cases=_C04.SUBSETS)(_C04.u_sample)
 
 
 # _register_shared_nz() is called by the driver after this module is fully imported (no import cycles)
